@@ -72,6 +72,9 @@ func (w *wrap) Close() error {
 	}
 	err := w.inner.Close()
 	atomic.StoreInt32(&w.sc.nestedCloseBegan, 0)
+	if atomic.LoadInt32(&w.sc.second) == 0 {
+		w.sc.ev("close-done", w.id) // (6): Stop may only return after this event of every resource of a started run
+	}
 	if w.fault == "close" {
 		return errClose
 	}
